@@ -117,7 +117,7 @@ STRUCT = {
     'unwrap-nested-ready': ["A\n", O('t', RT + ' unwrap-block'), "\n{\n", H(2, 'ind'), "p;\n", H(2, 'ind'), O('m', RX), "\n", H(1, 'txt'), "\n", C('m'), "\n", H(2, 'ind'), "q;\n}\n", C('t'), "\nB\n"],
     'unwrap-nested-pending': ["A\n", O('m', RX + ' unwrap-block'), "\n{\n", H(2, 'ind'), O('m', PN), "\n", H(2, 'ind'), "k", H(1, 'txt'), "\n", H(2, 'ind'), C('m'), "\n}\n", C('m'), "\nB\n"],
     'unwrap-pending': ["A\n", O('m', PN + ' unwrap-block'), "\n{\n", H(2, 'ind'), "k\n", H(2, 'ws'), "}\n", C('m'), H(2, 'ws'), "B"],
-    'unwrap-inline-untouched': [H(2), O('m', RX + ' unwrap-block'), H(2, 'txt'), "{b}", H(1, 'txt'), C('m'), H(2)],
+    'unwrap-inline-untouched': [H(3), O('m', RX + ' unwrap-block'), H(2, 'txt'), "{b}", H(1, 'txt'), C('m'), H(2)],
     'unwrap-one-line-between': ["A\n", H(1, 'ind'), O('m', RX + ' unwrap-block'), "\n", H(2, 'txt'), "x\n", H(1, 'ind'), C('m'), "\nB", H(2)],
     'unwrap-in-unwrap': ["A\n", O('m', RX + ' unwrap-block'), "\n{\n", H(1, 'ind'), O('t', RT + ' unwrap-block'), "\n", H(1, 'ind'), "[\n", H(2, 'ind'), "k;\n", H(1, 'ind'), "]\n", H(1, 'ind'), C('t'), "\n}\n", C('m'), "\nB\n"],
     # children sitting on the wrapper lines of an unwrap-block (C02/C03/C14 quantify over all sources)
@@ -145,6 +145,7 @@ STRUCT = {
     'unwrap-nested-ready-then-indented-blank-line': ["A\n", O('t', RT + ' unwrap-block'), "\n{\n  first();\n", H(2, 'ind'), "\n  ", O('m', RX), "\n  old();\n  ", C('m'), "\n", H(2, 'ind'), "\n", H(1, 'ind'), " second();\n\tafter();\n}\n", C('t'), "\nB\n"],
     'code-before-unwrap-tag-child-ends-midline': ["top\n    foo(); ", O('m', RX + ' unwrap-block'), "\n    if (x) { ", O('t', RT), "\n      junk\n    ", C('t'), H(1, 'nb'), H(2, 'ind'), "b", H(1, 'ind'), "c\n        body\n    }\n    ", C('m'), "\ntail\n"],
     'text-after-wrapper-child-on-head-line': ["a\n", O('t', RT + ' unwrap-block'), "\n{ ", O('m', RX), "\n foo\n ", C('m'), "a", H(2, 'ind'), "b", H(1, 'txt'), "\n  bar\n}\n", C('t'), "\nB\n"],
+    'child-on-both-wrapper-lines': ["A\n", O('m', RX + ' unwrap-block'), "\n", H(1, 'ind'), O('t', RT), H(1, 'txt'), "\nk", H(1, 'txt'), "\n", C('t'), H(1, 'ind'), "\n", C('m'), "\nB", H(1), "\n"],
     'unwrap-ragged': ["A\n", H(1, 'ind'), O('m', RX + ' unwrap-block'), "\n{\n    ", H(1, 'nb'), "a;\n  ", H(2, 'nb'), "b;\n", H(2, 'nb'), "c;\n", H(1, 'ind'), H(1, 'nb'), "d;\n}\n", C('m'), "\nB\n"],
     'unwrap-empty-line-between': [H(1), "A\n", O('m', RX + ' unwrap-block'), H(1, 'ind'), "\n", H(2, 'ind'), "\n", H(1, 'ind'), C('m'), "\nB", H(1)],
     'unwrap-adjacent-lines': [H(1), "A ", O('m', RX + ' unwrap-block'), H(1, 'ind'), "\n", H(1, 'ind'), C('m'), " B", H(1)],
